@@ -20,6 +20,21 @@ CHECKS = {
         text="Generated-input search: all pairings on <=8/11 positions and thousands of drawn multi-stem knotted structures (incl. path/star conflict graphs); the produced notation's level assignment is read back with an independent stem finder and compared with an exact branch-and-bound optimum by score (never by string), plus properness, greedy stability, >= FCFS and round-brackets-only for knot-free input.",
         note=TRUST + "Components above 10 stems are not checked for optimality. Only CBC is available as MILP back-end.",
         ref="3 C02"),
+    "C03": dict(
+        technique="corpus + Hypothesis-perturbed 3D structures against an independent O(n^2) three-valued geometric reference model (soundness, exclusivity, completeness)",
+        text="Generated-input search: whole corpus structures, rigidly moved / jittered / thinned copies and thousands of mini-structures of neighbouring residues whose members are moved independently so that every threshold (4.0 A, 50/130 deg, +-90 deg torsion) is crossed; each reported pair is justified by the harness's own donor/acceptor/edge tables and geometry, edge slots are checked for exclusivity and every pair of residues with >=2 certain base-to-base contacts must be reported or blocked.",
+        note=TRUST + "Residue identity and one-letter names come from the residue-level reader. Margins of 1e-6 around every threshold are undecided.",
+        ref="3 C03"),
+    "C04": dict(
+        technique="corpus + Hypothesis-perturbed 3D structures against an independent all-pairs geometric definition of stacking (both directions, three-valued)",
+        text="Generated-input search over the same 3D domains as C03; for all residue pairs the harness recomputes centroid distance, normal angle and offset angle with its own geometry and demands reported <=> defined (undecided within 1e-6), single report per pair, ordering and topology label family.",
+        note=TRUST + "Directed reading of the offset criterion (vector from the later to the earlier residue; normals (N7-N9)x(N3-N9) / (C4-N1)x(O2-N1)) as implemented by the anchored code; see DESIGN C04.",
+        ref="3 C04"),
+    "C11": dict(
+        technique="corpus + Hypothesis-perturbed and multi-model 3D structures against list invariants and an independent BPh/BR / Saenger reference; exhaustive (base, base, LW) grid for the Saenger lookup",
+        text="Generated-input search: every interaction list of every analysed model is checked for repetition, self-interaction, membership in the analysed model, orientation and sort order; Saenger classes against a literal 28-class table (complete 7x7x18 grid, pair vs reverse); BPh/BR classes against the classes implied by base-donor atoms within 4.0 A in the analysed model's coordinates, one class per ordered pair.",
+        note=TRUST + "Only soundness and uniqueness are claimed for BPh/BR. Multi-model structures are built by the harness (perturbed copies sharing identities).",
+        ref="3 C11"),
     "C07": dict(
         technique="exhaustive enumeration of pairings + Hypothesis structures against a reference decomposition (validity + coverage predicates)",
         text="Generated-input search over all pairings on <=8/11 positions and drawn structures up to ~150 nt; stems and hairpins are compared as sets with an independent decomposition, loops are checked by a validity predicate (closed cycle, paired ends, unpaired interiors), coverage of every unpaired nucleotide exactly once, and every strand's text against slices.",
